@@ -395,8 +395,8 @@ func (g *Gen) builtin(in *ssa.Call, b *ssa.Builtin, common *ssa.CallCommon, args
 		cur := args[0].S
 		for _, a := range args[1:] {
 			var lt string
-			if isFloat(t) && g.fmode == "fp" {
-				lt = "(fp.lt " + cur + " " + a.S + ")"
+			if isFloat(t) {
+				lt = g.fcmp("<", cur, a.S, t)
 			} else {
 				lt = "(< " + cur + " " + a.S + ")"
 			}
@@ -406,7 +406,7 @@ func (g *Gen) builtin(in *ssa.Call, b *ssa.Builtin, common *ssa.CallCommon, args
 				cur = "(ite " + lt + " " + a.S + " " + cur + ")"
 			}
 		}
-		if isFloat(t) && g.fmode == "fp" {
+		if isFloat(t) && g.fmode != "real" {
 			g.trusted["builtin min/max on floats: NaN and signed-zero cases not modelled"] = true
 		}
 		g.define(in, cur)
@@ -655,7 +655,9 @@ func (g *Gen) intrinsic(in *ssa.Call, key string, common *ssa.CallCommon, args [
 			// domain obligations: outside these ranges the function returns NaN
 			fpm := g.fmode == "fp"
 			dom := func(cond string, what string) {
-				g.safeObl("safe-nan", cond, reach, pos, what)
+				if g.fmode != "uf" {
+					g.safeObl("safe-nan", cond, reach, pos, what)
+				}
 			}
 			switch key {
 			case "math.Log1p":
@@ -693,6 +695,21 @@ func (g *Gen) intrinsic(in *ssa.Call, key string, common *ssa.CallCommon, args [
 func (c *Ctx) mathCall(name string, args []*SV) *SV {
 	f64 := types.Typ[types.Float64]
 	fp := c.fmode == "fp"
+	if c.fmode == "uf" {
+		switch name {
+		case "IsNaN":
+			return &SV{S: c.fIsNaN(args[0].S, f64), T: types.Typ[types.Bool]}
+		case "IsInf":
+			return c.ufCall("IsInf", args, types.Typ[types.Bool])
+		case "Float32bits":
+			return c.ufCall(name, args, types.Typ[types.Uint32])
+		case "Float64bits":
+			return c.ufCall(name, args, types.Typ[types.Uint64])
+		case "Float32frombits":
+			return c.ufCall(name, args, types.Typ[types.Float32])
+		}
+		return c.ufCall(name, args, f64)
+	}
 	a := func(i int) string { return args[i].S }
 	zero := c.floatLit("0", f64)
 	switch name {
